@@ -333,11 +333,14 @@ Inductive tkind := TLinearInf | TExp | TPower.
 Inductive tcall := CTransform | CDeriv | CDeriv2 | CDeriv3 | CInverse.
 Record tcfg := {
   t_sets : tkind -> tcall -> bool;   (* the method calls set_maximum_parameter_b on its argument *)
+  t_uses : tkind -> tcall -> bool;   (* the method's result depends on the scale: it reads self.b / self._b, directly or
+                                        through other methods of the object (falling back to max(argument) if b is unset) *)
   t_guard : tkind -> bool            (* set_maximum_parameter_b assigns only when b is None *)
 }.
 (* the pinned commit *)
 Definition tcfg_pinned : tcfg :=
   {| t_sets := fun t c => match t, c with TLinearInf, CDeriv2 | TLinearInf, CDeriv3 => false | _, _ => true end;
+     t_uses := fun t c => match t, c with TLinearInf, CDeriv2 | TLinearInf, CDeriv3 => false | _, _ => true end;
      t_guard := fun _ => true |}.
 
 Definition amax (x : list Z) : Z := match x with [] => 0%Z | a :: r => fold_left Z.max r a end.
@@ -360,7 +363,10 @@ Section BMachine.
           let b1 := amax x in
           if Z.eqb b1 0 then (Some b1, TErr) else (Some b1, TVal (F t cl (Some b1) x))
       end
-    else (b, TVal (F t cl b x)).
+    else
+      (* the scale is not stored by this call; if the result depends on a scale and none is fixed yet, the
+         maximum of the argument serves for this one call *)
+      (b, TVal (F t cl (if t_uses tc t cl then match b with Some b0 => Some b0 | None => Some (amax x) end else None) x)).
 
   Fixpoint tfinal (tc : tcfg) (t : tkind) (b : option Z) (cs : list (tcall * list Z)) : option Z :=
     match cs with [] => b | c :: r => tfinal tc t (fst (tstep tc t b c)) r end.
@@ -369,8 +375,10 @@ Section BMachine.
   Fixpoint tstates (tc : tcfg) (t : tkind) (b : option Z) (cs : list (tcall * list Z)) : list (option Z) :=
     match cs with [] => [] | c :: r => fst (tstep tc t b c) :: tstates tc t (fst (tstep tc t b c)) r end.
 
-  (* what the call returns for an object whose scale is fixed at b, irrespective of any history *)
-  Definition tpure (t : tkind) (b : Z) (c : tcall * list Z) : tres := TVal (F t (fst c) (Some b) (snd c)).
+  (* what the call returns for an object whose scale is ob (None: never fixed), irrespective of any history *)
+  Definition tcanon (tc : tcfg) (t : tkind) (ob : option Z) (c : tcall * list Z) : tres :=
+    TVal (F t (fst c) (if t_sets tc t (fst c) || t_uses tc t (fst c) then ob else None) (snd c)).
+  Definition tpure (tc : tcfg) (t : tkind) (b : Z) (c : tcall * list Z) : tres := tcanon tc t (Some b) c.
 End BMachine.
 Arguments TErr {Res}.
 Arguments TVal {Res} r.
